@@ -349,7 +349,8 @@ theorem dup_open {s sb : Sys} {c' : Nat} {a σ : String} (hR : DupReady s sb c' 
     (hf : ∀ y ∈ s.conns, y.id ≠ c') (hP : s.db.PInv) {d0 : Chan} {m : String} {t : Time}
     (hd : s.db = d0.openDb a m σ t) (hlen : (s.db.mbSidesOf m).length ≤ 2) (id : Val) :
     ∀ sc, sc = sb.step (.recv c' t id (.open_ (some m))) →
-      sc.db = s.db ∧ sc.Synced ∧ sc.cfg = s.cfg ∧ (∃ y, y.id = c' ∧ sc.conns = s.conns ++ [y]) ∧
+      sc.db = s.db ∧ sc.Synced ∧ sc.cfg = s.cfg ∧
+      sc.conns = s.conns ++ [{ dupConn c' a σ with mailboxId := some m, mailbox := some m, listening := true }] ∧
       ∃ commits, (∀ e ∈ commits, IsCommit e) ∧
         sc.out = .frame c' (.ack id) true :: (commits ++ replayFrames s.db c' a m) := by
   intro sc hsc
@@ -363,8 +364,7 @@ theorem dup_open {s sb : Sys} {c' : Nat} {a σ : String} (hR : DupReady s sb c' 
   rw [hside, hidem] at h3
   obtain ⟨hout, hdb, hsy, _, hcfg, _, hconns⟩ := h3 (fun hc => hc.2 hbox) (by omega)
   subst hsc
-  refine ⟨hdb, hsy, hcfg.trans hR.cfg,
-    ⟨{ dupConn c' a σ with mailboxId := some m, mailbox := some m, listening := true }, rfl, ?_⟩, hout⟩
+  refine ⟨hdb, hsy, hcfg.trans hR.cfg, ?_, hout⟩
   rw [hconns, hR.conns]
   exact map_append_fresh hf _ rfl (fun y => { y with mailboxId := some m, mailbox := some m, listening := true })
 
